@@ -363,6 +363,27 @@ def run(ctx):
             ctx.traces += 1
             if code != -1:
                 ctx.diff(g_meta[s + off], gfields.get(code, "code %d" % code))
+    # the same table objects reused by a later fit: "the same graph as supplying only its first n_neighbors columns" must also hold for
+    # tables that an earlier fit (with a disconnection distance cutting into them) has already seen
+    for rep in range(2 if ctx.tier == "quick" else 8):
+        try:
+            n_ = rng.choice([20, 34]); k_ = rng.choice([4, 6])
+            Xs, ix, ds = make_data(rng, npr, n_, k_ + 4)
+            tabs = (ix[:, : k_ + 3].copy(), ds[:, : k_ + 3].astype(np.float32).copy())
+            cut = float(np.quantile(tabs[1][:, 1:k_], 0.6))
+            first = fit(Xs, tabs, k_, bool(rep % 2), disconnection_distance=cut)
+            again = fit(Xs, tabs, k_, bool(rep % 2))                                           # same arrays, no cut
+            fresh = fit(Xs, (ix[:, :k_].copy(), ds[:, :k_].astype(np.float32).copy()), k_, bool(rep % 2))   # first k columns, fresh arrays
+            ctx.tag(("reuse", rep, n_, k_), ["tables_reused_after_cut"])
+            if first["exc"] is None and again["exc"] is None and fresh["exc"] is None:
+                md, sup = gdiff(again["graph"], fresh["graph"])      # (max abs difference, same support?)
+                if md > 1e-5 or not sup:
+                    ctx.fail("UMAP.fit.graph_:reused_tables_differ_from_first_k_columns", "tables already used by a fit with disconnection_distance=%.3g give a graph differing "
+                             "from the first-k fit by %.3g (same support: %s)" % (cut, md, sup), dict(X=Xs, knn_indices=ix[:, : k_ + 3], knn_dists=ds[:, : k_ + 3], n_neighbors=k_, first_cut=cut))
+            else:
+                ctx.fail("UMAP.fit:raises:reused_tables", "%r / %r / %r" % (first["exc"], again["exc"], fresh["exc"]), dict(X=Xs, n_neighbors=k_))
+        except Exception as e:  # pragma: no cover
+            ctx.notes.append("reused-tables probe failed: %r" % (e,))
     # observation (reported, not a clause of the property): n_neighbors vs _n_neighbors when n <= n_neighbors
     try:
         Xs, ix, ds = make_data(rng, npr, 10, 6)
